@@ -1,8 +1,130 @@
 import Gonuts.Model.Sexp
-/-! Driver commands `wallet.*` (stateless): filled in by the Wallet model. Core-only imports. -/
-namespace Gonuts.Model.WalletDriver
-open Gonuts
+import Gonuts.Model.WalletWire
+/-!
+  Driver commands `wallet.*` (stateless, core-only): the request builders of `Model.WalletWire` per construction site.
 
-def handle (_cmd : String) (_args : List Sexp) : Option Sexp := none
+  Symbolic inputs
+    proof   `(p <amount> <secret-id> <witness:bool> none | (es <e> <s>) | (esr <e> <s> <r>))`
+    output  `(o <amount> <secret-id> <r-id> <witness:bool>)`
+  Answer    `(req <endpoint> <secure:bool> <no-transcript:bool> <tree>)` where
+    tree  = `(node ("field" tree)…)` | `(arr tree…)` | leaf
+    leaf  = `(pub)` | `(num)` | `(point <kind>)` | `(dleqE e)` | `(dleqS s)` | `(blindingFactor r)` |
+            `(outputSecret s)` | `(inputSecret s)`
+  (public text, numbers and the coordinates of points are not compared, only their kind and position).
+
+  Commands
+    (wallet.mintquotereq)                                  RequestMint
+    (wallet.meltquotereq)                                  RequestMeltQuote / swapProofs
+    (wallet.mintreq <signed> (outputs…))                   MintTokens
+    (wallet.swapreq swapToSend (proofs…) (outputs…))       swapToSend (Send, SendToPubkey, HTLCLockedProofs, Melt, MintSwap)
+    (wallet.swapreq receive <p2pk> <sigall> (token proofs…) (outputs…))   Receive → createSwapRequest → swap()
+    (wallet.swapreq receiveHTLC <sigall> (token proofs…) (outputs…))      ReceiveHTLC → swap()
+    (wallet.swapreq reclaim (pending proofs…) (outputs…))  ReclaimUnspentProofs → swap()
+    (wallet.meltreq melt (proofs…) (blank outputs…))       Melt
+    (wallet.meltreq swapProofs (proofs…))                  swapProofs (MintSwap, Receive with swap to trusted)
+    (wallet.checkstatereq (secret-ids…))                   RemoveSpentProofs / ReclaimUnspentProofs / Restore
+    (wallet.restorereq (outputs…))                         Restore
+    (wallet.token v3|v4 <includeDLEQ> (proofs…))           NewTokenV3 / NewTokenV4: `(token <has-blinding:bool> <tree>)` | `(error)`
+-/
+namespace Gonuts.Model.WalletDriver
+open Gonuts Gonuts.Model.WalletWire
+
+def leafSexp : Leaf → Sexp
+  | .pub _ => .list [.atom "pub"]
+  | .num _ => .list [.atom "num"]
+  | .point k _ => .list [.atom "point", .atom k]
+  | .dleqE e => .list [.atom "dleqE", Sexp.ofNat e]
+  | .dleqS s => .list [.atom "dleqS", Sexp.ofNat s]
+  | .blindingFactor r => .list [.atom "blindingFactor", Sexp.ofNat r]
+  | .outputSecret s => .list [.atom "outputSecret", Sexp.ofNat s]
+  | .inputSecret s => .list [.atom "inputSecret", Sexp.ofNat s]
+
+mutual
+def treeSexp : Tree → Sexp
+  | .leaf l => leafSexp l
+  | .node fs => .list (.atom "node" :: fieldsSexp fs)
+  | .arr xs => .list (.atom "arr" :: itemsSexp xs)
+def fieldsSexp : List (String × Tree) → List Sexp
+  | [] => []
+  | (k, t) :: rest => .list [.str k, treeSexp t] :: fieldsSexp rest
+def itemsSexp : List Tree → List Sexp
+  | [] => []
+  | t :: rest => treeSexp t :: itemsSexp rest
+end
+
+def epName : Endpoint → String
+  | .mintQuote => "mintquote"
+  | .mint => "mint"
+  | .meltQuote => "meltquote"
+  | .melt => "melt"
+  | .swap => "swap"
+  | .checkState => "checkstate"
+  | .restore => "restore"
+  | .get w => "get-" ++ w
+
+def reqSexp (r : Req) : Sexp :=
+  .list [.atom "req", .atom (epName r.ep), Sexp.ofBool r.secureB, Sexp.ofBool r.body.noTranscriptB, treeSexp r.body]
+
+def dleq? : Sexp → Option (Option DLEQ)
+  | .atom "none" => some none
+  | .list [.atom "es", e, s] => do some (some { e := ← e.asNat?, s := ← s.asNat?, r := none })
+  | .list [.atom "esr", e, s, r] => do some (some { e := ← e.asNat?, s := ← s.asNat?, r := some (← r.asNat?) })
+  | _ => none
+
+def proof? : Sexp → Option WProof
+  | .list [.atom "p", a, s, w, d] => do
+    some { amount := ← a.asNat?, id := "ks", secret := ← s.asNat?, witness := ← w.asBool?, dleq := ← dleq? d }
+  | _ => none
+
+def proofs? (s : Sexp) : Option (List WProof) := do (← s.asList?).mapM proof?
+
+def output? : Sexp → Option Output
+  | .list [.atom "o", a, s, r, w] => do
+    some { amount := ← a.asNat?, id := "ks", secret := ← s.asNat?, r := ← r.asNat?, witness := ← w.asBool? }
+  | _ => none
+
+def outputs? (s : Sexp) : Option (List Output) := do (← s.asList?).mapM output?
+
+/-- the first (only) request of a run -/
+def firstReq {α : Type} (r : Run α) : Option Sexp := r.reqs.head?.map reqSexp
+
+def handle (cmd : String) (args : List Sexp) : Option Sexp :=
+  match cmd, args with
+  | "wallet.mintquotereq", [] => some (reqSexp (postMintQuoteReq 0))
+  | "wallet.meltquotereq", [] => some (reqSexp postMeltQuoteReq)
+  | "wallet.mintreq", [sg, outs] => do
+    -- the POST of MintTokens (second request of the path; the first is the GET of the quote state)
+    let r := mintTokens {} "quote" (some (some true)) (← sg.asBool?) (← outputs? outs) none
+    (r.reqs.drop 1).head?.map reqSexp
+  | "wallet.swapreq", [.atom "swapToSend", ps, outs] => do
+    firstReq (swapToSend {} (← proofs? ps) (← outputs? outs) [] none)
+  | "wallet.swapreq", [.atom "receive", p2pk, sigall, ps, outs] => do
+    firstReq (receive {} (← proofs? ps)
+      { p2pk := ← p2pk.asBool?, sigAll := ← sigall.asBool?, outs := ← outputs? outs })
+  | "wallet.swapreq", [.atom "receiveHTLC", sigall, ps, outs] => do
+    firstReq (receiveHTLC {} (← proofs? ps) true true (← sigall.asBool?) (← outputs? outs) none)
+  | "wallet.swapreq", [.atom "reclaim", ps, outs] => do
+    let ps ← proofs? ps
+    -- second request of the path (the first is the state check)
+    let r := reclaimUnspentProofs { pending := ps } [{ proofs := ps, unspent := ps, outs := ← outputs? outs }]
+    (r.reqs.drop 1).head?.map reqSexp
+  | "wallet.meltreq", [.atom "melt", ps, blanks] => do
+    firstReq (melt {} "quote" none (.exact (← proofs? ps)) (← outputs? blanks) .pending)
+  | "wallet.meltreq", [.atom "swapProofs", ps] => do
+    -- third request of the path (after the mint quote and the melt quote)
+    let r := swapProofs {} (← proofs? ps) { meltPaid := none }
+    (r.reqs.drop 2).head?.map reqSexp
+  | "wallet.checkstatereq", [ss] => do
+    firstReq (removeSpentProofs {} [{ proofs := (← ss.asNats?).map fun s => { amount := 0, id := "ks", secret := s } }])
+  | "wallet.restorereq", [outs] => do
+    (restoreBatches [{ outs := ← outputs? outs }]).head?.map reqSexp
+  | "wallet.token", [.atom "v3", inc, ps] => do
+    let t := newTokenV3 (← proofs? ps) (← inc.asBool?)
+    some (.list [.atom "token", Sexp.ofBool (t.leaves.any (·.2.isBlinding)), treeSexp t])
+  | "wallet.token", [.atom "v4", inc, ps] => do
+    match newTokenV4 (← proofs? ps) (← inc.asBool?) with
+    | some t => some (.list [.atom "token", Sexp.ofBool (t.leaves.any (·.2.isBlinding)), treeSexp t])
+    | none => some (.list [.atom "error"])
+  | _, _ => none
 
 end Gonuts.Model.WalletDriver
